@@ -31,7 +31,7 @@ PROP_IDS = ['C%02d' % i for i in range(1, 21)]
 QUICK_SEEDS = {
     'C01': 150000, 'C02': 150000, 'C03': 150000, 'C04': 150000,
     'C05': 150000, 'C06': 100000, 'C07': 150000, 'C08': 60000,
-    'C09': 150000, 'C10': 120000, 'C11': 50000, 'C12': 120000,
+    'C09': 150000, 'C10': 120000, 'C11': 40000, 'C12': 120000,
     'C13': 50000, 'C14': 100000,
     'C15': 100000, 'C16': 100000, 'C17': 100000, 'C18': 100000,
     'C19': 100000,
